@@ -135,6 +135,19 @@ RECORD_OPS = {
 }
 
 
+# focused recorded histories: few operand coordinates, many requests, so that the keys of one table share coordinates
+# (operands repeat while one coordinate varies) and earlier requests are repeated after the table has rebalanced
+FOCUSED = {
+    "C01": [("xfer-grid", 1, "C|C++|Ada|D|Java|cdecl", ["get_linkage", "get_calling_convention", "get_transfer", "get_transfer"]
+             + ["get_function_x"] * 5 + ["get_as_type_x"] * 3 + ["get_function_ex", "get_product"]),
+            ("binary-grid", 4, None, ["get_array", "get_ptr_to_member", "get_forall", "get_tor", "get_qualified", "get_function",
+                                "get_function_e", "get_product", "get_sum", "get_pointer", "mk_phantom"])],
+    "C04": [("atoms-grid", 4, "a|b|int|default|x1|this", ["get_symbol", "get_literal", "make_literal", "get_template_id", "get_identifier", "mk_expr_list",
+                               "get_this", "get_label", "get_suffix", "get_conversion", "get_pointer", "mk_phantom"])],
+    "C11": [("qual-grid", 3, None, ["get_qualified", "get_qualified", "get_pointer", "mk_class"])],
+}
+
+
 def is_start(ev):
     return ev.get("op") == "init"
 
@@ -166,6 +179,11 @@ def run(pid, tier, seed):
         tp = os.path.join(trace_dir, "%s-%s-%d-%d.ndjson" % (pid, tier, seed, k))
         vlib.record_trace(exe, ["record", "--seed", seed * 1000 + k, "--runs", nruns, "--len", length,
                                 "--noise", noise, "--ops", ",".join(RECORD_OPS[pid])], tp)
+        tr_specs.append(tp)
+    for (fname, focus, wordset, fops) in FOCUSED.get(pid, []):
+        tp = os.path.join(trace_dir, "%s-%s-%d-%s.ndjson" % (pid, tier, seed, fname))
+        vlib.record_trace(exe, ["record", "--seed", seed * 1000 + 77, "--runs", 3 if q else 12, "--len", 400 if q else 600,
+                                "--noise", 0, "--focus", focus, "--ops", ",".join(fops)] + (["--wordset", wordset] if wordset else []), tp)
         tr_specs.append(tp)
 
     def run_trace(tp):
